@@ -302,3 +302,12 @@ def r6(ctx: Ctx) -> None:
     if cf != (("ret", ("tuple", (src, ("a", ("self",), "fixed_regions")))),):
         ctx.report(fp.where, "fp-rectangles " + "; ".join(show(x) for x in cf), "floorplanning_rectangles does not return (refinable regions, fixed regions)",
                    lineno=fp.node.lineno)
+
+
+
+@rule("C11", "R7.geometry-primitives", "SHARED(C18)",
+      'the grid helper is exact: Rectangle.rectangle_grid / duplicate satisfy the C18 tiling laws (cell size * count == parent size, first cell at the low border, contiguous, last cell at the high border, x geometry independent of the row index) -- evaluated for the helpers the die decomposition calls', floor=6)
+def shared_geometry(ctx: Ctx) -> None:
+    from . import C18 as _c18
+    from .common import support
+    support(ctx, [_c18.r5, _c18.r6], {"Rectangle.rectangle_grid", "Rectangle.duplicate"})
